@@ -848,3 +848,14 @@ PROPS["C07"]["assumptions"] += ["Track::{read_substate, set_substate, delete_par
                                 "epoch that commits it)"]
 PROPS["C07"]["trusted_base"] = KANI_TB + MIR_TB
 PROPS["C07"]["mir"] = True
+
+PROPS["C16"]["functions"].append(
+    "Engine M: SpreadPrefixKeyMapper::{sorted_to_db_sort_key, sorted_from_db_sort_key, to_hash_prefixed, "
+    "from_hash_prefixed} from their MIR (hash = environment stub returning 32 arbitrary bytes)")
+PROPS["C16"]["bounds"] += ("; Engine M: every 2-byte sort prefix, every payload content of length 0 and 3 (1 and 5 in thorough), "
+                           "every 32-byte hash value; every database key of 22 + n bytes for the inverse")
+PROPS["C16"]["assumptions"] = PROPS["C16"].get("assumptions", []) + [
+    "Engine M: radix_common::crypto::hash is an environment stub (32 arbitrary bytes): the claim is about where the sort "
+    "prefix and the payload sit in the database key, whatever the hash is"]
+PROPS["C16"]["trusted_base"] = KANI_TB + MIR_TB
+PROPS["C16"]["mir"] = True
